@@ -894,8 +894,17 @@ def _template_census(fn: ast.FunctionDef) -> dict:
     # loop variables bound from file.vmf.* or from a template object
     changed = True
     loops = [n for n in ast.walk(fn) if isinstance(n, ast.For)]
+    aliases = _single_assigned_locals(fn)        # `template = file.vmf`: the local stands for the template object too
+    def _chain_root(e: ast.AST) -> str | None:
+        while isinstance(e, (ast.Attribute, ast.Subscript)):
+            e = e.value
+        return e.id if isinstance(e, ast.Name) else None
     while changed:
         changed = False
+        for nm_, val_ in aliases.items():
+            if nm_ not in tmpl_names and isinstance(val_, (ast.Attribute, ast.Subscript)) and _chain_root(val_) in tmpl_names:
+                tmpl_names.add(nm_)
+                changed = True
         for lp in loops:
             src = ast.unparse(lp.iter)
             roots = {n.id for n in ast.walk(lp.iter) if isinstance(n, ast.Name)}
@@ -2388,11 +2397,21 @@ def _statement_kinds(c1: ast.FunctionDef, site_nodes: dict[int, list[ast.AST]], 
 
 
 # ---------------------------------------------------------------------------------------------- visible objects, ID maps
+def _unalias(e: ast.expr, aliases: dict[str, ast.expr], depth: int = 0) -> ast.expr:
+    """`template.brushes` with the single assignment `template = file.vmf` -> `file.vmf.brushes` (attribute chains only)."""
+    if isinstance(e, ast.Attribute):
+        return ast.Attribute(value=_unalias(e.value, aliases, depth), attr=e.attr, ctx=ast.Load())
+    if isinstance(e, ast.Name) and e.id in aliases and depth < 5 and isinstance(aliases[e.id], (ast.Attribute, ast.Name)):
+        return _unalias(aliases[e.id], aliases, depth + 1)
+    return e
+
+
 def _visibility_and_ids(c1: ast.FunctionDef, fk: ast.FunctionDef) -> dict:
     """`for old_brush in file.vmf.brushes` / `for old_ent in file.vmf.entities`: the guard that skips hidden objects, that
     nothing else skips one, and that both copies and the SIDE_LIST branch of fixup_key use the same face-ID map."""
     def loop(attr: str) -> ast.For:
-        found = [n for n in ast.walk(c1) if isinstance(n, ast.For) and ast.unparse(n.iter) == f'file.vmf.{attr}']
+        al = _single_assigned_locals(c1)
+        found = [n for n in ast.walk(c1) if isinstance(n, ast.For) and ast.unparse(_unalias(n.iter, al)) == f'file.vmf.{attr}']
         if len(found) != 1:
             raise TranslateError(f'collapse_one: expected exactly one loop over file.vmf.{attr}')
         return found[0]
@@ -2577,7 +2596,7 @@ def translate() -> tuple[str, dict]:
             for c in ([n.value] if isinstance(n, ast.Expr) and isinstance(n.value, ast.Call) else []):
                 if isinstance(c.func, ast.Attribute) and c.func.attr == 'localise':
                     loc_sites.append({'recv': ast.unparse(c.func.value), 'args': [ast.unparse(a) for a in c.args],
-                                      'loop': ast.unparse(lp.iter), 'line': c.lineno,
+                                      'loop': ast.unparse(_unalias(lp.iter, _single_assigned_locals(c1))), 'line': c.lineno,
                                       'unconditional': True})
     all_loc = [n for n in ast.walk(c1) if isinstance(n, ast.Call) and isinstance(n.func, ast.Attribute) and n.func.attr == 'localise']
     side['localise_sites'] = loc_sites
@@ -2942,7 +2961,10 @@ def translate() -> tuple[str, dict]:
         raise TranslateError('vmf.py: class VMF not found')
     vmf_ann = {n.target.id: ast.unparse(n.annotation) for n in vmf_cls.body if isinstance(n, ast.AnnAssign) and isinstance(n.target, ast.Name)}
     # innermost enclosing loop that binds the receiver
+    c1_aliases = _single_assigned_locals(c1)
     def binder(recv: str, line: int) -> str:
+        return ast.unparse(_unalias(ast.parse(binder0(recv, line), mode='eval').body, c1_aliases)) if binder0(recv, line) else ''
+    def binder0(recv: str, line: int) -> str:
         best = ''
         for lp in ast.walk(c1):
             if isinstance(lp, ast.For) and lp.lineno <= line <= (lp.end_lineno or lp.lineno):
